@@ -11,13 +11,13 @@ Local Open Scope Z_scope.
    leaves everything it does not address unchanged (frame).  The model is state-passing: a mutating function
    returns `res state`, and `Panic k` carries no state -- a rejected call leaves the receiver the caller passed in.
    One theorem per family; every entry is named in it (g_<entry> occurs in its conjuncts).
-   Lemmas: Proofs/GuardsModel{Vec,Mat,Solve,Band,Tri,Sparse,Iter,Mesh,Poly}.v, bridged through guard_<entry>.
+   Lemmas: Proofs/GuardsModel{Vec,Mat,Solve,Band,Tri,Sparse,Iter,Mesh,Poly,Native}.v, bridged through guard_<entry>.
    ====================================================================================================== *)
 From Coq Require Import List Arith Permutation Floats.
 From OV Require Import Base.Panic Base.Arith Inst.QcInst Inst.FloatInst Model.Complex.
 From OV Require Import Model.Vector Model.ParDot Model.Matrix Model.Solve Model.Banded Model.Tridiag Model.Sparse Model.Iter Model.Mesh Model.Poly Model.Roots.
 From OV Require Proofs.Matrix Proofs.LUPrim Proofs.LUQc Proofs.SolveBase Proofs.Solve Proofs.Banded Proofs.BandedComplete Proofs.Tridiag Proofs.SparseBase Proofs.SparseViews Proofs.MeshBase Proofs.MeshStore.
-From OV Require Proofs.GuardsModelBase Proofs.GuardsModelVec Proofs.GuardsModelMat Proofs.GuardsModelSolve Proofs.GuardsModelBand Proofs.GuardsModelTri Proofs.GuardsModelSparse Proofs.GuardsModelIter Proofs.GuardsModelMesh Proofs.GuardsModelPoly Proofs.GuardsModelFamilies.
+From OV Require Proofs.GuardsModelBase Proofs.GuardsModelVec Proofs.GuardsModelMat Proofs.GuardsModelSolve Proofs.GuardsModelBand Proofs.GuardsModelTri Proofs.GuardsModelSparse Proofs.GuardsModelIter Proofs.GuardsModelMesh Proofs.GuardsModelPoly Proofs.GuardsModelNative Proofs.GuardsModelFamilies.
 Import ListNotations.
 Local Open Scope nat_scope.
 (* used by the non-vacuity Examples only: `panics_with k r = true` iff r = Panic k (keeps the evaluated goals small) *)
@@ -1343,6 +1343,159 @@ Example entry_contract_mesh_nonvacuous :
   g_mesh1_set_nodes_vars 3 2 3 2 = true /\ panics_with Guard (set_nodes_vars1 l 3 [q 1 1; q 2 1]) = true /\ is_ok (set_nodes_vars1 l 2 [q 1 1; q 2 1]) = true /\
   g_mesh1_get_nodes_vars 3 2 3 = true /\ panics_with Guard (get_nodes_vars1 l 3) = true.
 Proof. split; [apply MeshStore.mesh2_new_wf|]. split; [apply MeshStore.mesh1_new_wf|]. vm_compute. repeat split; reflexivity. Qed.
+
+(* ---- the 13 entry points protected by std's own bounds checks only (no guard in the source, hence no g_<entry>; ranges = the `spec` column of
+   driver/guardtable.py): Vector Index IndexMut swap insert pop, Banded Index beyond the last row, Mesh1D Index IndexMut coord, Mesh2D coord
+   cross_section_xnode cross_section_ynode apply.  Outside the range: a native panic (Index; Unwrap for pop; the Mesh2D range rejection for the
+   cross sections), no value; inside: a value; writers change only what they address. ---- *)
+Theorem entry_contract_native :
+  (* native_vec_index *)
+    (forall (A : Arith) (v : list A) (i : nat), (length v <= i -> vget v i = Panic Index) /\ (i < length v -> vget v i = Ok (nth i v zero))) /\
+  (* native_vec_index_mut *)
+    (forall (A : Arith) (v : list A) (i : nat) (x : A),
+     (length v <= i -> vset v i x = Panic Index) /\
+     (i < length v ->
+      exists v' : list A,
+        vset v i x = Ok v' /\ length v' = length v /\ nth i v' zero = x /\ (forall j : nat, j <> i -> nth j v' zero = nth j v zero))) /\
+  (* native_vec_swap *)
+    (forall (A : Arith) (v : list A) (i j : nat),
+     (length v <= i \/ length v <= j -> vswap v i j = Panic Index) /\
+     (i < length v ->
+      j < length v ->
+      exists v' : list A, vswap v i j = Ok v' /\ length v' = length v /\ (forall k : nat, k <> i -> k <> j -> nth k v' zero = nth k v zero))) /\
+  (* native_vec_insert *)
+    (forall (A : Arith) (v : list A) (pos : nat) (x : A),
+     (length v < pos -> vinsert v pos x = Panic Index) /\
+     (pos <= length v -> exists v' : list A, vinsert v pos x = Ok v' /\ length v' = S (length v))) /\
+  (* native_vec_pop *)
+    (forall (A : Arith) (v : list A),
+     (length v = 0 -> vpop v = Panic Unwrap) /\ (1 <= length v -> exists (v' : list A) (x : A), vpop v = Ok (v', x) /\ v = v' ++ [x])) /\
+  (* native_band_index_rows *)
+    (forall (A : Arith) (B : banded A) (i : nat),
+     Banded.wfB B -> (bn B <= i -> band_get B i i = Panic Index) /\ (i < bn B -> exists x : A, band_get B i i = Ok x)) /\
+  (* native_mesh1_index *)
+    (forall (A : Arith) (X : Type) (m : mesh1 A X) (node : nat),
+     MeshBase.wf1 m ->
+     (length (m1_nodes m) <= node -> index1 m node = Panic Index) /\
+     (node < length (m1_nodes m) -> exists v : list A, index1 m node = Ok v /\ length v = m1_nvars m)) /\
+  (* native_mesh1_index_mut *)
+    (forall (A : Arith) (X : Type) (m : mesh1 A X) (node : nat) (v : list A),
+     MeshBase.wf1 m ->
+     (length (m1_nodes m) <= node -> index1_set m node v = Panic Index) /\
+     (node < length (m1_nodes m) ->
+      exists m' : mesh1 A X,
+        index1_set m node v = Ok m' /\
+        m1_nodes m' = m1_nodes m /\
+        m1_nvars m' = m1_nvars m /\ index1 m' node = Ok v /\ (forall node' : nat, node' <> node -> index1 m' node' = index1 m node'))) /\
+  (* native_mesh1_coord *)
+    (forall (A : Arith) (X : Type) (m : mesh1 A X) (node : nat),
+     (length (m1_nodes m) <= node -> coord1 m node = Panic Index) /\ (node < length (m1_nodes m) -> exists x : X, coord1 m node = Ok x)) /\
+  (* native_mesh2_coord *)
+    (forall (A : Arith) (X : Type) (m : mesh2 A X) (i j : nat),
+     MeshBase.wf2 m ->
+     (m2_nx m <= i \/ m2_ny m <= j -> coord2 m i j = Panic Index) /\ (i < m2_nx m -> j < m2_ny m -> exists p : X * X, coord2 m i j = Ok p)) /\
+  (* native_mesh2_cross_section_xnode *)
+    (forall (A : Arith) (X : Type) (m : mesh2 A X) (i : nat),
+     MeshBase.wf2 m ->
+     1 <= m2_ny m ->
+     (m2_nx m <= i -> exists k : pkind, cross_section_xnode m i = Panic k /\ GuardsModelMesh.guard_or_empty_underflow m k) /\
+     (i < m2_nx m -> exists s : mesh1 A X, cross_section_xnode m i = Ok s /\ MeshBase.wf1 s /\ m1_nodes s = m2_y m)) /\
+  (* native_mesh2_cross_section_ynode *)
+    (forall (A : Arith) (X : Type) (m : mesh2 A X) (j : nat),
+     MeshBase.wf2 m ->
+     1 <= m2_nx m ->
+     (m2_ny m <= j -> exists k : pkind, cross_section_ynode m j = Panic k /\ GuardsModelMesh.guard_or_empty_underflow m k) /\
+     (j < m2_ny m -> exists s : mesh1 A X, cross_section_ynode m j = Ok s /\ MeshBase.wf1 s /\ m1_nodes s = m2_x m)) /\
+  (* native_mesh2_apply *)
+    (forall (A : Arith) (X : Type) (func : X -> X -> res A) (m : mesh2 A X) (var : nat),
+     MeshBase.wf2 m ->
+     1 <= m2_nx m ->
+     1 <= m2_ny m ->
+     (m2_nvars m <= var -> (forall x y : X, exists v : A, func x y = Ok v) -> apply2 func m var = Panic Index) /\
+     (var < m2_nvars m ->
+      (forall x y : X, exists v : A, func x y = Ok v) ->
+      exists m' : mesh2 A X, apply2 func m var = Ok m' /\ MeshBase.wf2 m' /\ MeshStore.shape2_eq m' m)).
+Proof. exact GuardsModelFamilies.entry_contract_native_lemma. Qed.
+Check entry_contract_native :
+  (* native_vec_index *)
+    (forall (A : Arith) (v : list A) (i : nat), (length v <= i -> vget v i = Panic Index) /\ (i < length v -> vget v i = Ok (nth i v zero))) /\
+  (* native_vec_index_mut *)
+    (forall (A : Arith) (v : list A) (i : nat) (x : A),
+     (length v <= i -> vset v i x = Panic Index) /\
+     (i < length v ->
+      exists v' : list A,
+        vset v i x = Ok v' /\ length v' = length v /\ nth i v' zero = x /\ (forall j : nat, j <> i -> nth j v' zero = nth j v zero))) /\
+  (* native_vec_swap *)
+    (forall (A : Arith) (v : list A) (i j : nat),
+     (length v <= i \/ length v <= j -> vswap v i j = Panic Index) /\
+     (i < length v ->
+      j < length v ->
+      exists v' : list A, vswap v i j = Ok v' /\ length v' = length v /\ (forall k : nat, k <> i -> k <> j -> nth k v' zero = nth k v zero))) /\
+  (* native_vec_insert *)
+    (forall (A : Arith) (v : list A) (pos : nat) (x : A),
+     (length v < pos -> vinsert v pos x = Panic Index) /\
+     (pos <= length v -> exists v' : list A, vinsert v pos x = Ok v' /\ length v' = S (length v))) /\
+  (* native_vec_pop *)
+    (forall (A : Arith) (v : list A),
+     (length v = 0 -> vpop v = Panic Unwrap) /\ (1 <= length v -> exists (v' : list A) (x : A), vpop v = Ok (v', x) /\ v = v' ++ [x])) /\
+  (* native_band_index_rows *)
+    (forall (A : Arith) (B : banded A) (i : nat),
+     Banded.wfB B -> (bn B <= i -> band_get B i i = Panic Index) /\ (i < bn B -> exists x : A, band_get B i i = Ok x)) /\
+  (* native_mesh1_index *)
+    (forall (A : Arith) (X : Type) (m : mesh1 A X) (node : nat),
+     MeshBase.wf1 m ->
+     (length (m1_nodes m) <= node -> index1 m node = Panic Index) /\
+     (node < length (m1_nodes m) -> exists v : list A, index1 m node = Ok v /\ length v = m1_nvars m)) /\
+  (* native_mesh1_index_mut *)
+    (forall (A : Arith) (X : Type) (m : mesh1 A X) (node : nat) (v : list A),
+     MeshBase.wf1 m ->
+     (length (m1_nodes m) <= node -> index1_set m node v = Panic Index) /\
+     (node < length (m1_nodes m) ->
+      exists m' : mesh1 A X,
+        index1_set m node v = Ok m' /\
+        m1_nodes m' = m1_nodes m /\
+        m1_nvars m' = m1_nvars m /\ index1 m' node = Ok v /\ (forall node' : nat, node' <> node -> index1 m' node' = index1 m node'))) /\
+  (* native_mesh1_coord *)
+    (forall (A : Arith) (X : Type) (m : mesh1 A X) (node : nat),
+     (length (m1_nodes m) <= node -> coord1 m node = Panic Index) /\ (node < length (m1_nodes m) -> exists x : X, coord1 m node = Ok x)) /\
+  (* native_mesh2_coord *)
+    (forall (A : Arith) (X : Type) (m : mesh2 A X) (i j : nat),
+     MeshBase.wf2 m ->
+     (m2_nx m <= i \/ m2_ny m <= j -> coord2 m i j = Panic Index) /\ (i < m2_nx m -> j < m2_ny m -> exists p : X * X, coord2 m i j = Ok p)) /\
+  (* native_mesh2_cross_section_xnode *)
+    (forall (A : Arith) (X : Type) (m : mesh2 A X) (i : nat),
+     MeshBase.wf2 m ->
+     1 <= m2_ny m ->
+     (m2_nx m <= i -> exists k : pkind, cross_section_xnode m i = Panic k /\ GuardsModelMesh.guard_or_empty_underflow m k) /\
+     (i < m2_nx m -> exists s : mesh1 A X, cross_section_xnode m i = Ok s /\ MeshBase.wf1 s /\ m1_nodes s = m2_y m)) /\
+  (* native_mesh2_cross_section_ynode *)
+    (forall (A : Arith) (X : Type) (m : mesh2 A X) (j : nat),
+     MeshBase.wf2 m ->
+     1 <= m2_nx m ->
+     (m2_ny m <= j -> exists k : pkind, cross_section_ynode m j = Panic k /\ GuardsModelMesh.guard_or_empty_underflow m k) /\
+     (j < m2_ny m -> exists s : mesh1 A X, cross_section_ynode m j = Ok s /\ MeshBase.wf1 s /\ m1_nodes s = m2_x m)) /\
+  (* native_mesh2_apply *)
+    (forall (A : Arith) (X : Type) (func : X -> X -> res A) (m : mesh2 A X) (var : nat),
+     MeshBase.wf2 m ->
+     1 <= m2_nx m ->
+     1 <= m2_ny m ->
+     (m2_nvars m <= var -> (forall x y : X, exists v : A, func x y = Ok v) -> apply2 func m var = Panic Index) /\
+     (var < m2_nvars m ->
+      (forall x y : X, exists v : A, func x y = Ok v) ->
+      exists m' : mesh2 A X, apply2 func m var = Ok m' /\ MeshBase.wf2 m' /\ MeshStore.shape2_eq m' m)).
+Print Assumptions entry_contract_native.
+Example entry_contract_native_nonvacuous :
+  let v : list AQ := [q 1 1; q 2 1; q 3 1] in
+  let m : mesh2 AQ nat := @mesh2_new AQ nat [0; 1; 2] [0; 1] 2 in
+  panics_with Index (vget v 3) = true /\ is_ok (vget v 2) = true /\ panics_with Index (vswap v 0 3) = true /\ is_ok (vswap v 0 2) = true /\
+  panics_with Index (vinsert v 4 (q 9 1)) = true /\ is_ok (vinsert v 3 (q 9 1)) = true /\ panics_with Unwrap (vpop (A := AQ) []) = true /\ is_ok (vpop v) = true /\
+  panics_with Index (band_get (@band_new AQ 3 1 1 (q 1 1)) 3 3) = true /\
+  MeshBase.wf2 m /\ panics_with Guard (cross_section_xnode m 3) = true /\ is_ok (cross_section_xnode m 2) = true /\
+  panics_with Index (coord2 m 3 0) = true /\ panics_with Index (apply2 (A := AQ) (fun _ _ => Ok (q 1 1 : AQ)) m 2) = true /\ is_ok (apply2 (A := AQ) (fun _ _ => Ok (q 1 1 : AQ)) m 1) = true.
+Proof.
+  assert (W : MeshBase.wf2 (@mesh2_new AQ nat [0; 1; 2] [0; 1] 2)) by apply MeshStore.mesh2_new_wf.
+  vm_compute. repeat split; try reflexivity; apply W.
+Qed.
 
 (* ---- Polynomial (3 entries): Index IndexMut and the degree guard of roots (every root arithmetic). ---- *)
 Theorem entry_contract_polynomial :
